@@ -73,6 +73,7 @@ def bentable(dirname, scope_note):
 t1,bm1,n1,f1,s1=bentable('benign','')
 t2,bm2,n2,f2,s2=bentable('benign2',' (own property only)')
 t3,bm3,n3,f3,s3=bentable('benign3','')
+t4,bm4,n4,f4b,s4=bentable('benign4','')
 if n1:
     t="**Round 1**: %d changes from 20 agents (four per property). First measurement: %d of %d silent. Now: **%d of %d silent**.\n\n"%(n1,f1,n1,s1,n1)
     t+=t1+"\n"
@@ -82,11 +83,14 @@ if n1:
     if n3:
         t+="**Round 3** (held out again: written after the corrections for round 2, two larger clean-ups per property; measured from the start on all 20 rule sets): %d changes. First measurement: %d of %d silent. Now: **%d of %d silent**.\n\n"%(n3,f3,n3,s3,n3)
         t+=t3+"\n"
+    if n4:
+        t+="**Round 4** (held out, small and aimed: ten agents asked for two clean-ups each in and around the functions that the rules added after seeding rounds 3 and 4 look at - the agents were told the functions, not the rules): %d changes. First measurement: %d of %d silent. Now: **%d of %d silent**.\n\n"%(n4,f4b,n4,s4,n4)
+        t+=t4+"\n"
     t+=open(V+'/tools/design_benign_notes.md').read()
-    rem=[m for m in bm1+bm2+bm3 if m.get('verdict')!='silent']
+    rem=[m for m in bm1+bm2+bm3+bm4 if m.get('verdict')!='silent']
     if rem:
         for m in rem:
-            rnd='round 1' if m in bm1 else ('round 2' if m in bm2 else 'round 3')
+            rnd='round 1' if m in bm1 else ('round 2' if m in bm2 else ('round 3' if m in bm3 else 'round 4'))
             first=(m.get('alarms') or [''])[0]
             mm=re.match(r'(C\d\d): (violated|undecided) (R[0-9.]+|INTERNAL|SELFTEST) (.*?) at ',first)
             t+="* **%s** (%s; %s): %s\n"%(m['id'],rnd,(m.get('title') or '')[:100],('%s %s %s'%(mm.group(1),mm.group(3),mm.group(4)[:90])) if mm else first[:120])
